@@ -69,11 +69,13 @@ type Beh struct {
 		Kind string `json:"kind"`
 		From int    `json:"from"`
 	} `json:"sweep"`
-	Kind         string `json:"kind,omitempty"` // "flood": only the buffer bound and liveness are judged
+	Split        string `json:"split,omitempty"` // how the reference sender cuts bodies: any | even | tinyfirst | tinylast
+	Pre          string `json:"pre,omitempty"`   // class of a forged frame sent before the channel is opened ("none")
+	Kind         string `json:"kind,omitempty"`  // "flood": only the buffer bound and liveness are judged
 	Buffered     int    `json:"buffered"`
 	AsisBuffered int    `json:"asis_buffered"`
 	Sweep        string `json:"-"` // "byte" | "trunc" | ""
-	SweepFrom int    `json:"-"`
+	SweepFrom    int    `json:"-"`
 }
 
 func (b *Beh) norm() {
@@ -160,7 +162,7 @@ func expected(b *Beh, bi *baseInfo, asis bool) (ws []want, term string, termStep
 		}
 		_ = parts
 		acc := want{Ev: "acc", Seq: bi.seq[st.ID], Req: bi.req[st.ID], Kind: st.Kind, step: i}
-		if st.ID == 0 && o != "reject" && o != "none" {
+		if st.ID == 0 && o != "reject" && o != "none" && o != "shake" {
 			o = "reject" // a frame of the adversary's own is never anything else
 		}
 		switch o {
@@ -168,7 +170,7 @@ func expected(b *Beh, bi *baseInfo, asis bool) (ws []want, term string, termStep
 		case "desync", "panic":
 			// nothing after this input is predictable (framing lost) / observable (process gone)
 			return ws, o, i
-		case "close":
+		case "close", "shake":
 			ws = append(ws, want{Ev: "ret", Err: "yes", step: i})
 			return ws, o, i
 		case "reject":
@@ -192,7 +194,7 @@ func expected(b *Beh, bi *baseInfo, asis bool) (ws []want, term string, termStep
 // contractTerm reports whether the contract outcome of some step ends the predictable part.
 func contractTerm(b *Beh) string {
 	for _, st := range b.Steps {
-		if st.Expect == "desync" || st.Expect == "close" {
+		if st.Expect == "desync" || st.Expect == "close" || st.Expect == "shake" {
 			return st.Expect
 		}
 	}
@@ -234,6 +236,8 @@ type emitter struct {
 	nplan   int // number of base chunks of the plan
 	damage  func(frame []byte, st Step) [][]byte
 	emitted int
+	pre     func() [][]byte // forged frames to put in front of the handshake's OPN chunk (nil: none)
+	preDone bool
 	opn     int // OPN chunks seen in the stream's direction since arming
 	opnDone int // "renew" steps consumed
 }
@@ -243,6 +247,11 @@ type emitter struct {
 func (e *emitter) onFrame(f chanpair.Frame) [][]byte {
 	e.mu.Lock()
 	defer e.mu.Unlock()
+	if !e.armed && e.pre != nil && !e.preDone && f.Dir == e.dir && f.Type() == "OPN" {
+		// before the channel is open: the adversary's frame arrives ahead of the handshake's OPN chunk
+		e.preDone = true
+		return append(e.pre(), f.Data)
+	}
 	if !e.armed || f.Dir != e.dir {
 		return chanpair.Pass(f)
 	}
@@ -389,13 +398,24 @@ const fenceTag = 9999
 
 // runBehReal: base stream by the real gopcua sender, adversary moves by the Tap.
 func runBehReal(b *Beh, damage func(g *rig) func([]byte, Step) [][]byte) runResult {
-	em := &emitter{steps: b.Steps, nplan: len(b.Chunks)}
+	em := &emitter{steps: b.Steps, nplan: len(b.Chunks), dir: "c2s"}
+	if b.Side == "client" {
+		em.dir = "s2c"
+	}
+	if b.Pre != "" && b.Pre != "none" {
+		row := &GRow{Side: b.Side, Mode: b.Mode, Policy: b.Policy, Class: b.Pre, Phase: "pre"}
+		em.pre = func() [][]byte { return garbageFrames(row, 7, 1, 1, vfgo.Rand(int64(b.N)*17+3)) }
+	}
 	g, err := openRig(rigOpts{Policy: b.Policy, Mode: b.Mode, Side: b.Side, Tap: em.onFrame, MaxChunks: b.MaxChunks})
 	if err != nil {
+		if em.pre != nil {
+			// C09 demands that the forged frame is not delivered and nothing crashes, not that the
+			// handshake survives it
+			return runResult{status: "ok", obs: map[string]any{"handshake_after_forged_frame": "failed: " + err.Error()}}
+		}
 		return runResult{status: "inconclusive", detail: "open: " + err.Error()}
 	}
 	defer g.close()
-	em.dir = g.dir
 	if damage != nil {
 		if em.damage = damage(g); em.damage == nil {
 			return runResult{status: "inconclusive", detail: "no keys of the sending side"}
@@ -436,7 +456,7 @@ func runBehReal(b *Beh, damage func(g *rig) func([]byte, Step) [][]byte) runResu
 	_, _, cur, _, _ := uasc.VerifActive(g.sendCh)
 	id := 0
 	lastMsg := b.Chunks[len(b.Chunks)-1].Msg // a behaviour that ends early (framing lost, closed) needs no more
-	renewAfter := -1                          // number of chunks on the wire when the token is renewed
+	renewAfter := -1                         // number of chunks on the wire when the token is renewed
 	for _, st := range b.Steps {
 		if st.In == "renew" {
 			renewAfter = st.ID
@@ -600,10 +620,26 @@ func judge0(b *Beh, bi *baseInfo, evs []Ev, sawFence, fenced bool) runResult {
 		}
 		okc, at, detail := compare(wc, head)
 		if okc && len(evs) >= len(wc) {
-			bad := bi.seq[b.Steps[termStep].ID]
+			// what must never be accepted afterwards: the chunk that lost its framing and every chunk the
+			// adversary damages or forges later; and nothing that is not a chunk of the stream at all
+			forbidden := map[uint32]int{}
+			if term == "desync" {
+				forbidden[bi.seq[b.Steps[termStep].ID]] = termStep
+			}
+			for i := termStep + 1; i < len(b.Steps); i++ {
+				if b.Steps[i].In == "damage" {
+					forbidden[bi.seq[b.Steps[i].ID]] = i
+				}
+			}
+			lo, hi := bi.seq[1], bi.seq[len(b.Chunks)]+2
 			for _, e := range evs[len(wc):] {
-				if e.Ev == "acc" && e.Seq == bad && term == "desync" {
-					okc, at, detail = false, termStep, "the chunk with the rewritten size field was accepted: "+evString(e)
+				if e.Ev != "acc" || e.Typ == "OPN" {
+					continue
+				}
+				if i, bad := forbidden[e.Seq]; bad {
+					okc, at, detail = false, i, fmt.Sprintf("a chunk the adversary %s was accepted: %s", map[bool]string{true: "left without framing", false: "damaged or forged"}[i == termStep], evString(e))
+				} else if int32(e.Seq-lo) < 0 || int32(hi-e.Seq) < 0 {
+					okc, at, detail = false, termStep, "a chunk that is not part of the peer's stream was accepted: "+evString(e)
 				}
 			}
 			if okc {
